@@ -126,6 +126,7 @@ type shape struct {
 	SW     []int // server writes (the first travels with the response header)
 	Tiny   bool  // first write of each direction is the two bytes 00 02 (payload chunk as large as a length chunk)
 	Thor   bool  // thorough tier only
+	Long   bool  // many small chunks: only same-kind, same-size segment swaps at every distance (nonce-sequence periodicity)
 }
 
 var shapes = []shape{
@@ -135,7 +136,16 @@ var shapes = []shape{
 	{Name: "maxpad1", Domain: true, P0: 0, Pad: 899, CW: []int{1, 1, 1}, SW: []int{1, 1, 1}},
 	{Name: "five", P0: 1, Pad: 1, CW: []int{1, 2, 3, 4, 5}, SW: []int{5, 4, 3, 2, 1}, Thor: true},
 	{Name: "p899", Domain: true, P0: 899, Pad: 0, CW: []int{18, 16}, SW: []int{18, 16, 2}, Thor: true},
+	{Name: "long300", P0: 0, Pad: 0, CW: rep(8, 300), SW: rep(8, 300), Long: true},
 	{Name: "big64k", P0: 1000, Pad: 0, CW: []int{65535, 70000}, SW: []int{70000, 65535}, Thor: true},
+}
+
+func rep(v, n int) []int {
+	out := make([]int, n)
+	for i := range out {
+		out[i] = v
+	}
+	return out
 }
 
 func shapeByName(n string) (shape, bool) {
